@@ -6,6 +6,10 @@ package main
 import (
 	"fmt"
 	"math"
+	"reflect"
+	"sort"
+	"strconv"
+	"strings"
 
 	"github.com/ah-naf/borno/ast"
 	"github.com/ah-naf/borno/token"
@@ -182,3 +186,117 @@ func absStmt(s ast.Stmt) Node {
 }
 
 func absProgram(ss []ast.Stmt) Node { return Node{"k": "prog", "c": absStmts(ss)} }
+
+// ---- values observed at print time (hook "print" / "echo") -> the specification's snapshot shape
+
+// canonNum renders a float64 as the canonical number string of Host.tla (shortest digits, mantissa e exponent).
+func canonNum(f float64) string {
+	switch {
+	case math.IsNaN(f):
+		return "NaN"
+	case math.IsInf(f, 1):
+		return "Inf"
+	case math.IsInf(f, -1):
+		return "-Inf"
+	case f == 0:
+		if math.Signbit(f) {
+			return "-0"
+		}
+		return "0"
+	}
+	s := strconv.FormatFloat(math.Abs(f), 'e', -1, 64) // d.ddddde±xx
+	mant, exp, _ := strings.Cut(s, "e")
+	x, _ := strconv.Atoi(exp)
+	digits := strings.Replace(mant, ".", "", 1)
+	x -= len(digits) - 1
+	t := strings.TrimRight(digits, "0")
+	x += len(digits) - len(t)
+	sign := ""
+	if f < 0 {
+		sign = "-"
+	}
+	return sign + t + "e" + strconv.Itoa(x)
+}
+
+func absValue(v interface{}, depth int, visiting map[uintptr]bool) Node {
+	if depth == 0 {
+		return Node{"t": "deep"}
+	}
+	switch x := v.(type) {
+	case nil:
+		return Node{"t": "nil"}
+	case bool:
+		return Node{"t": "bool", "b": x}
+	case float64:
+		return Node{"t": "num", "n": canonNum(x)}
+	case int:
+		return Node{"t": "num", "n": canonNum(float64(x)), "gotype": "int"}
+	case int64:
+		if f := float64(x); f < 9.223372036854775807e18 && int64(f) == x {
+			return Node{"t": "num", "n": canonNum(f), "gotype": "int64"}
+		}
+		return Node{"t": "num", "n": "i:" + strconv.FormatInt(x, 10)}
+	case string:
+		return Node{"t": "str", "s": cpsOf(x)}
+	case []rune:
+		return Node{"t": "str", "s": runesToInts(x), "gotype": "runes"}
+	case []interface{}:
+		if len(x) > 0 {
+			id := reflect.ValueOf(x).Pointer()
+			if visiting[id] {
+				return Node{"t": "deep"}
+			}
+			visiting[id] = true
+			defer delete(visiting, id)
+		}
+		es := make([]interface{}, len(x))
+		for i, e := range x {
+			es[i] = absValue(e, depth-1, visiting)
+		}
+		return Node{"t": "arr", "e": es}
+	case map[string]interface{}:
+		id := reflect.ValueOf(x).Pointer()
+		if visiting[id] {
+			return Node{"t": "deep"}
+		}
+		visiting[id] = true
+		defer delete(visiting, id)
+		ks := make([]string, 0, len(x))
+		for k := range x {
+			ks = append(ks, k)
+		}
+		sort.Strings(ks)
+		kk := make([]interface{}, len(ks))
+		vs := make([]interface{}, len(ks))
+		for i, k := range ks {
+			kk[i] = symbolicName(k)
+			vs[i] = absValue(x[k], depth-1, visiting)
+		}
+		return Node{"t": "obj", "ks": kk, "vs": vs}
+	default:
+		n := calleeName(v)
+		if strings.HasPrefix(n, "user:") {
+			return Node{"t": "fn", "name": symbolicName(strings.TrimPrefix(n, "user:"))}
+		}
+		if s, ok := nativeGoName[n]; ok {
+			return Node{"t": "nat", "name": s}
+		}
+		return Node{"t": "other", "go": fmt.Sprintf("%T", v)}
+	}
+}
+
+var spellingToSymbol = func() map[string]string {
+	m := map[string]string{}
+	for k, v := range builtinSpelling {
+		m[v] = k
+	}
+	return m
+}()
+
+// symbolicName maps a source spelling back to the specification's symbolic name (built-ins), else itself.
+func symbolicName(s string) string {
+	if k, ok := spellingToSymbol[s]; ok {
+		return k
+	}
+	return s
+}
